@@ -2200,6 +2200,32 @@ def uncast_render(r):
     return re.sub(r'^\((?:unsigned |signed )?\w[\w ]*\)(?=[\w(])', '', r)
 
 
+def _constant_local_array(d):
+    """the write emits a local array that has an initialiser and is handed to nothing but the write: its content does not come from the object"""
+    if d.get('srck') != 'array' or not str(d.get('src', '')).startswith('local:') or d.get('src_from'):
+        return False
+    fn_ = d['fn']
+    name = d['src'][6:]
+    did = None
+    for n in fn_.all_nodes({'DeclStmt'}):
+        for dd in n['decls']:
+            if dd['name'] == name and 'init' in dd:
+                did = dd['id']
+    if did is None:
+        return False
+    uses = [x for x in fn_.nodes if x['k'] == 'DeclRefExpr' and x['decl'].get('id') == did]
+    for u in uses:
+        for a in fn_.ancestors(u['id']):
+            an = fn_.nodes[a]
+            if an['k'] in ('CXXMemberCallExpr', 'CallExpr', 'CXXOperatorCallExpr'):
+                if an['id'] != d['node'] and an.get('callee', {}).get('name') != 'write':
+                    return False
+                break
+            if an['k'] in ('BinaryOperator', 'CompoundAssignOperator') and an.get('op', '').endswith('=') and an.get('op') not in ('==', '!=', '<=', '>='):
+                return False
+    return True
+
+
 def storage_rule(prog, res, rule, f, fl, pl, al):
     calls = {}
     for fn_, sub in _helper_family(prog, [f]):
@@ -2343,7 +2369,7 @@ def frame_writer_rule(prog, res, rule='frame-write'):
             res.ok(rule, 'frame.point', pp[0][1][0]['where'], 'x, y, z, residual = _data[0..3], 4 bytes each from 32-bit floats (on each of %d path(s))' % len(pp), function=fn_.sig, expr='frame.point')
         else:
             res.viol(rule, 'frame.point', (bad[2][0]['where'] if bad[2] else where(pl)), 'a point is written as %s%s; specified %s' % (bad[1], (' when ' + ' && '.join(bad[0])) if bad[0] else '', want),
-                     function=fn_.sig, expr='frame.point')
+                     function=fn_.sig, expr='frame.point', sure=all(d_.get('width') is not None and (d_.get('srck') == 'object' or _constant_local_array(d_)) for d_ in bad[2]))
     # analogs
     sl = body[1]
     inner = sl[3]
